@@ -325,7 +325,10 @@ def points_in_polygons(x, y, polygons):
             if yi == yj:
                 continue
             straddle = (yi > y) != (yj > y)
-            xc = xi + (y - yi) / (yj - yi) * (xj - xi)
+            # where straddle holds, 0 <= (y - yi)/(yj - yi) <= 1; elsewhere the value is
+            # masked out (it may overflow for edges only a few denormals high)
+            with np.errstate(all='ignore'):
+                xc = xi + (y - yi) / (yj - yi) * (xj - xi)
             inside ^= straddle & (x < xc)
         count += inside
     return count > 0, count
